@@ -64,7 +64,7 @@ fn main() {
                 store: sh.store.clone(),
                 subscriptions: Mutex::new(HashMap::new()),
                 iters: Mutex::new(HashMap::new()),
-                signals: (Mutex::new(Default::default()), std::sync::Condvar::new()),
+                signals: sh.env.signals.clone(),
                 shared_subs: shared_subs.clone(),
                 peers: Mutex::new(HashMap::new()),
             });
